@@ -103,3 +103,19 @@ def span_field(s):
 
 def tape_field(scan, l, r):
     return f'{scan}/{span_field(l)}/{span_field(r)}'
+
+
+def corpus_2x2(first_defined=True):
+    return [prog_text(t) for t in exhaustive_tables(2, 2, first_defined)]
+
+
+SIZES_SMALL = [(3, 2), (2, 3), (4, 2), (2, 4), (3, 3), (5, 2), (2, 5), (6, 2), (2, 6), (4, 3)]
+
+
+def random_progs(rng, n, sizes=SIZES_SMALL, p_undef=0.08, nf_share=0.5):
+    out = []
+    for _ in range(n):
+        S, C = rng.choice(sizes)
+        first = (1, True, 1) if rng.random() < nf_share else None
+        out.append(prog_text(random_table(rng, S, C, p_undef, first)))
+    return out
